@@ -490,7 +490,11 @@ class Arena:
                 break
             culprit = jobs[start + done]
             retried = None
-            if hang:
+            nretry = getattr(self, "_nretry", 0)
+            if hang and nretry >= 3:
+                hang_only = True       # enough budget spent on repeats in this arena
+            if hang and nretry < 3:
+                self._nretry = nretry + 1
                 # a wall-clock expiry is no verdict: the job is repeated alone with ten times the budget
                 p2 = subprocess.Popen([str(self.bin), str(budget_ms * 10)], stdin=subprocess.PIPE, stdout=subprocess.PIPE,
                                       stderr=subprocess.DEVNULL, preexec_fn=limits, env=penv)
@@ -507,7 +511,7 @@ class Arena:
                             pass
             if retried is not None and "id" in retried:
                 results[retried["id"]] = retried
-            elif hang and p2.returncode not in (0, 9, None):
+            elif hang and nretry < 3 and p2.returncode not in (0, 9, None):
                 # slow because it was busy overflowing the stack: the repeat shows the death
                 incidents.append({"job": culprit, "kind": "died", "rc": p2.returncode})
             else:
